@@ -152,6 +152,9 @@ async fn consecutive_chunks(r: &mut Report, seed: u64, thorough: bool) {
     for malicious in [false, true] {
         let mode = if malicious { "malicious" } else { "semi-honest" };
         // 8 cases at a time
+        // the fixture's proof-carrying runner validates everything in one batch of bounded size
+        // (`into_single_batch` asserts it): more than 12 rows in total only in the semi-honest mode
+        let plans: Vec<Vec<usize>> = plans.iter().filter(|l| !malicious || l.iter().sum::<usize>() <= 12).cloned().collect();
         for group in plans.chunks(8) {
             if STALLS.load(std::sync::atomic::Ordering::SeqCst) > 0 {
                 r.note("consecutive chunks: remaining cases skipped after a stall");
